@@ -225,11 +225,21 @@ def extinst_modules(g, rnd, n, T):
         insts.append(("mm", g.inst(E["MemoryModel"])))
         insts.append(("fn:0:def", g.inst(E["Function"])))
         insts.append(("fn:0:blk:0:label", g.inst(E["Label"])))
+        # first the ends of both tables for every set (0 is declared in OpenCL.std only), with and without arguments; then random
+        plan = []
+        for sid, nm in sets:
+            tab = T["glsl"] if nm.startswith(b"GLSL") else T["opencl"]
+            nums = sorted(r["opcode"] for r in tab)
+            for num in (0, nums[0], nums[-1], nums[-1] + 1, 999, 65536 + nums[1], 4294967295):
+                plan.append((sid, num, len(plan) % 2 == 0))
         for _ in range(20):
             sid, nm = rnd.choice(sets)
             tab = T["glsl"] if nm.startswith(b"GLSL") else T["opencl"]
-            num = rnd.choice([r["opcode"] for r in tab] + [0, 999, 4294967295])
+            plan.append((sid, rnd.choice([r["opcode"] for r in tab] + [0, 999, 4294967295]), False))
+        for sid, num, bare in plan:
             i = g.inst(E["ExtInst"])
+            if bare:
+                i.ops = i.ops[:2]
             i.ops[0] = instgen.Op("w", idref, sid if rnd.random() < 0.9 else 77)
             i.ops[1] = instgen.Op("w", xi, num)
             insts.append(("fn:0:blk:0:inst", i))
